@@ -65,7 +65,21 @@ PROPS["C15"] = {
     "partial": "codecs",
 }
 
+PROPS["C02"] = {
+    "gen": ["Merge", "Masks", "PIO", "Pyramid", "Paths"],
+    "trusted_base": ["numpy reshape/nanmean/astype implement the 2x2 block mean of the Merger Protocol (structure re-checked textually; values exercised with dyadic data so float sums are exact)",
+                     "callbacks that overlap in time are atomic with respect to the files they share: none (proved: disjoint footprints), given the order of C01"],
+    "assumptions": COMMON_ASSUME + ["the pyramid holds nothing above the start level before the cascade (a stale parent whose children are all missing is left alone by the code)",
+                                     "float mean is order-independent (exact on the generated dyadic data)"],
+    "partial": "float mean order (dyadic data)",
+}
+
 LEVEL_TEXT = {
+    "C02": {
+        "text": "Slice tables, table-per-parity choice and the callback's structure come from running/reading merge.py each run; per-pixel update semantics from image.py (C15). Theorems: closed form of the 512x512 mosaic for both tables; for both vertical parities the displayed parent pixel (i,j) is the block function of the displayed mosaic with child (2x+ix,2y+iy) in quadrant (iy,ix) and missing children undefined (flip and table row-halves cancel for row-swap-invariant mergers; the averaging merger is one); NaN iff all four NaN / floor mean of four stored values; parent exists iff some child exists and the merged tile is not completely masked; for every legal schedule (C01 order) every tile equals a function of the leaves only, and non-interfering callbacks commute, so serial and parallel results coincide. Real cascades (8 format/mode kinds, serial and 3 workers) are compared with an independent numpy statement of the property and with the Lean index map applied to the real child files.",
+        "note": "trusted: Lean kernel; table/idiom extraction; numpy block-mean structure; dyadic test data for float exactness.",
+        "technique": "Lean 4 proof (index algebra + induction over schedules) + differential execution against real cascades",
+    },
     "C15": {
         "text": "The numpy statements of fill_into_maskable_buffer / update_into_maskable_buffer / clear / is_completely_masked are translated per mode into per-pixel Lean functions on every run (a small numpy-idiom translator: putmask, isnan, any(axis=2), broadcast_to, maximum, slice assignment). Theorems per mode class: fill defines exactly the rectangle, update never touches the frame nor a pixel whose source is undefined, defined sources replace (RGB/RGBA/float/3xfloat16), integer update is the max, masked-ness uses the same per-pixel rule, write_image stores a tile iff not completely masked after any write history, read defaults. The model is run against the real Image methods on all modes x slice indexers x mask densities, and against PyramidIO write histories and round trips.",
         "note": "trusted: Lean kernel; the numpy-idiom translator; numpy's slice-view semantics; codecs.",
